@@ -53,21 +53,41 @@ func fatal2(format string, a ...any) {
 	os.Exit(2)
 }
 
-// buildWorker compiles the worker test binary against /repo's working tree.
+// buildWorker compiles the worker test binary against the repository's working
+// tree. With VERIF_REPO pointing somewhere else than /repo (a scratch worktree
+// holding a seeded change) an alternative go.mod with that replace path is used.
 func buildWorker(race bool) string {
 	simDir := filepath.Join(verifDir, "sim")
-	if data, err := os.ReadFile(filepath.Join(repoDir, "go.sum")); err == nil {
-		_ = os.WriteFile(filepath.Join(simDir, "go.sum"), data, 0644)
-	}
 	outDir := filepath.Join(verifDir, ".build")
 	_ = os.MkdirAll(outDir, 0755)
+	var modArgs []string
+	if repoDir != "/repo" {
+		h := fmt.Sprintf("%x", hashString(repoDir))
+		outDir = filepath.Join(outDir, "alt-"+h)
+		_ = os.MkdirAll(outDir, 0755)
+		mod, err := os.ReadFile(filepath.Join(simDir, "go.mod"))
+		if err != nil {
+			fatal2("%v", err)
+		}
+		alt := strings.Replace(string(mod), "github.com/markusressel/fan2go => /repo", "github.com/markusressel/fan2go => "+repoDir, 1)
+		alt = strings.Replace(alt, "=> ./gosensors", "=> "+filepath.Join(simDir, "gosensors"), 1)
+		altMod := filepath.Join(outDir, "alt.mod")
+		_ = os.WriteFile(altMod, []byte(alt), 0644)
+		if data, err := os.ReadFile(filepath.Join(repoDir, "go.sum")); err == nil {
+			_ = os.WriteFile(filepath.Join(outDir, "alt.sum"), data, 0644)
+		}
+		modArgs = []string{"-modfile=" + altMod}
+	} else if data, err := os.ReadFile(filepath.Join(repoDir, "go.sum")); err == nil {
+		_ = os.WriteFile(filepath.Join(simDir, "go.sum"), data, 0644)
+	}
 	out := filepath.Join(outDir, "worker.test")
-	args := []string{"test", "-c", "-tags", "verif", "-o", out}
+	args := []string{"test", "-c", "-tags", "verif"}
 	if race {
 		out = filepath.Join(outDir, "worker.race.test")
-		args = []string{"test", "-c", "-race", "-tags", "verif", "-o", out}
+		args = []string{"test", "-c", "-race", "-tags", "verif"}
 	}
-	args = append(args, "./worker/")
+	args = append(args, modArgs...)
+	args = append(args, "-o", out, "./worker/")
 	cmd := exec.Command(goBin, args...)
 	cmd.Dir = simDir
 	cmd.Env = goEnv()
@@ -78,8 +98,16 @@ func buildWorker(race bool) string {
 		fmt.Fprintln(os.Stderr, buf.String())
 		fatal2("building the worker from %s failed: %v", repoDir, err)
 	}
-	fmt.Fprintf(os.Stderr, "simcheck: worker built in %.1fs (race=%v)\n", time.Since(start).Seconds(), race)
+	fmt.Fprintf(os.Stderr, "simcheck: worker built in %.1fs from %s (race=%v)\n", time.Since(start).Seconds(), repoDir, race)
 	return out
+}
+
+func hashString(s string) uint32 {
+	var h uint32 = 2166136261
+	for i := 0; i < len(s); i++ {
+		h = (h ^ uint32(s[i])) * 16777619
+	}
+	return h
 }
 
 // ---------------------------------------------------------------------------
@@ -460,7 +488,7 @@ func runProperty(plan *PropertyPlan, tier string, seed uint64, par int, scale fl
 	defer os.RemoveAll(scratchDir())
 	known := loadKnown()
 	// replay files of earlier runs of this property are stale now
-	if old, err := filepath.Glob(filepath.Join(verifDir, "replays", plan.ID+"-*.json")); err == nil {
+	if old, err := filepath.Glob(filepath.Join(envOr("VERIF_REPLAY_DIR", filepath.Join(verifDir, "replays")), plan.ID+"-*.json")); err == nil {
 		for _, f := range old {
 			_ = os.Remove(f)
 		}
@@ -671,7 +699,7 @@ func tailLines(s string, n int) string {
 }
 
 func writeEvidence(ev *evidence) {
-	dir := filepath.Join(verifDir, "evidence")
+	dir := envOr("VERIF_EVIDENCE_DIR", filepath.Join(verifDir, "evidence"))
 	_ = os.MkdirAll(dir, 0755)
 	b, _ := json.MarshalIndent(ev, "", " ")
 	if err := os.WriteFile(filepath.Join(dir, ev.PropertyID+".json"), b, 0644); err != nil {
@@ -770,7 +798,7 @@ func writeReplay(plan *PropertyPlan, bins map[bool]string, v check.Violation, o 
 			rf.Shrunk = "original scenario did not reproduce in a fresh process (not shrunk)"
 		}
 	}
-	dir := filepath.Join(verifDir, "replays")
+	dir := envOr("VERIF_REPLAY_DIR", filepath.Join(verifDir, "replays"))
 	_ = os.MkdirAll(dir, 0755)
 	path := filepath.Join(dir, fmt.Sprintf("%s-%s-%d-%s.json", plan.ID, o.family, o.seed, sanitize(v.Clause)))
 	b, _ := json.MarshalIndent(rf, "", " ")
